@@ -38,7 +38,9 @@ CONSTANTS
     Dev_NoParentAclCheck,      \* validateChange without the "acl head not older than parents'" loop
     Dev_StaleScratch,          \* Unmarshall keeps the signature of the previous call in its scratch message
     Dev_MemoWriter,            \* one validation pass checks "is writer" once per author, whatever record is cited
-    Dev_RollbackOnlyHeads      \* rollback detaches the rejected changes from the previous heads only
+    Dev_RollbackOnlyHeads,     \* rollback detaches the rejected changes from the previous heads only
+    Dev_CidByDigest,           \* VerifyCid compares decoded digests: any other spelling of the id passes
+    Dev_KeepUnattached         \* Tree.Add does not clear unAttached: a later raw change with such an id is not verified
 
 (* A bounds record:                                                                             *)
 (*   MaxAcl      timeline records after the prelude                                             *)
@@ -54,12 +56,14 @@ CONSTANTS
 (*               "all" (any known record)                                                       *)
 (*   Shape       "full" | "hist": hist = candidate alone, or behind one filler of the subject,  *)
 (*               or the signature-less twin of the change unmarshalled just before              *)
+(*   Pres        subset of BOOLEAN: may the genuine candidate be delivered on its own, before its  *)
+(*               parent, in an earlier call (it stays unattached there)                         *)
 (*   Filters     subset of BOOLEAN: is the tree built with the filtering validator              *)
 (*               (BuildKeyFilterableObjectTree: changes citing an unknown ACL record are        *)
 (*               dropped by FilterChanges instead of failing validation)                        *)
 
 AllEvents == {"addW", "addR", "joinW", "req", "accW", "promote", "demote", "remove", "other"}
-AllMuts   == {"none", "bytes", "bytesReid", "id", "idDup", "swap", "unsigned", "twin"}
+AllMuts   == {"none", "bytes", "bytesReid", "id", "idAlias", "idDup", "swap", "unsigned", "twin"}
 AllPKinds == {"heads", "fork", "redundant", "unknown", "oldroot"}
 
 ASSUME \A f \in DOMAIN Bounds :
@@ -77,13 +81,14 @@ VARIABLES
     hist,      \* Seq([rec, perm]): S's PermissionChanges as the appliers of aclstate.go keep them
     attached,  \* set of change records: the in-memory tree (Tree.attached)
     heads,     \* set of ids (Tree.headIds)
+    unatt,     \* set of change records: Tree.unAttached as it is left when Add returns (always {})
     stored,    \* set of change records: what storage.AddAll persisted (GetAfterOrder)
     memRoot,   \* id of the in-memory root (Tree.root): 1, or 2 when reduced to the snapshot
     phase,     \* "build" | "cand" | "final"
     verdict,   \* outcome of the candidate delivery: "none" | "accept" | "nothing" | "reject"
     agree,     \* the code's verdict equalled the property's verdict on every delivery so far
     reopenOk   \* every buildObjectTree (reopen) so far validated the stored tree
-vars == <<focus, filt, acl, hist, attached, heads, stored, memRoot, phase, verdict, agree, reopenOk>>
+vars == <<focus, filt, acl, hist, attached, heads, unatt, stored, memRoot, phase, verdict, agree, reopenOk>>
 
 B == Bounds[focus]
 MaxAcl == B.MaxAcl
@@ -164,7 +169,8 @@ CodePerm(who, i) ==
 \* tw # 0: the raw change carries exactly the signed payload of change tw but no signature field
 Chg(id, kind, au, named, cite, par, snap, cidOk, sigOk) ==
     [id |-> id, kind |-> kind, au |-> au, named |-> named, cite |-> cite, par |-> par,
-     snap |-> snap, cidOk |-> cidOk, sigOk |-> sigOk, tw |-> 0]
+     snap |-> snap, cidOk |-> cidOk, sigOk |-> sigOk, tw |-> 0, al |-> FALSE]
+\* al: the id is another spelling (multibase / case) of the hash of the bytes, not the canonical string
 \* the signature-less twin of change t: same payload bytes (hence same identity, cited record,
 \* parents), signature field absent on the wire, id = hash of the new bytes
 Twin(id, t) == [t EXCEPT !.id = id, !.sigOk = FALSE, !.tw = t.id, !.kind = "ch"]
@@ -239,24 +245,29 @@ BadFrom(sq, k, scr) ==
     IF k > Len(sq) THEN FALSE
     ELSE LET c   == sq[k]
              sig == c.sigOk \/ (Dev_StaleScratch /\ c.tw # 0 /\ c.tw = scr)
-         IN IF ~c.cidOk \/ ~sig THEN TRUE
+             cid == c.cidOk \/ (Dev_CidByDigest /\ c.al)
+         IN IF ~cid \/ ~sig THEN TRUE
             ELSE BadFrom(sq, k + 1, IF c.tw = 0 THEN c.id ELSE scr)
 \* the change the tree's builder unmarshalled last: while a context is built, the last accepted
 \* delivery (0 = none, e.g. the root only)
 LastUnmarshalled == LET s == {c.id : c \in {x \in stored : x.kind = "ch"}} IN IF s = {} THEN 0 ELSE Max(s)
 
 \* the result of AddRawChanges(batch): [verdict, attached, heads, stored, memRoot]
-Res(v, a, h, s, r) == [verdict |-> v, attached |-> a, heads |-> h, stored |-> s, memRoot |-> r]
+Res(v, a, h, s, r) == [verdict |-> v, attached |-> a, heads |-> h, stored |-> s, memRoot |-> r, un |-> {}]
 Unchanged(v) == Res(v, attached, heads, stored, memRoot)
 
-CodeDeliver(batch) ==
+\* un = Tree.unAttached when the call starts.  A raw change whose id is found there is not
+\* unmarshalled again (addChangesToTree re-uses the parsed change and takes the new bytes); Tree.Add
+\* clears unAttached when it returns, so un is always {} unless Dev_KeepUnattached.
+CodeDeliverU(batch, un) ==
     LET \* addChangesToTree, first loop: skip known ids, Unmarshall(ch, true) everything else
         fresh0  == SelectSeq(batch, LAMBDA c : c.id \notin Ids(attached))
+        toCheck == SelectSeq(fresh0, LAMBDA c : c.id \notin Ids(un))
         \* validator.FilterChanges (filtering trees only): drop what cites an unknown ACL record
         fresh   == IF filt THEN SelectSeq(fresh0, LAMBDA c : c.cite \in 0..N) ELSE fresh0
         rebuild == \E k \in 1..Len(fresh) : fresh[k].snap # memRoot /\ fresh[k].snap \notin Ids(attached)
         verify  == ~(Dev_NoVerifyOnRebuild /\ rebuild)
-        badRaw  == verify /\ BadFrom(fresh0, 1, LastUnmarshalled)
+        badRaw  == verify /\ BadFrom(toCheck, 1, LastUnmarshalled)
     IN IF badRaw THEN Unchanged("reject")                      \* returns before touching the tree
        ELSE IF Len(fresh) = 0 THEN Unchanged("nothing")
        ELSE IF rebuild
@@ -278,9 +289,13 @@ CodeDeliver(batch) ==
                   ok    == \A c \in added : CodeValidIn(c, tr, memRoot, added)
                   \* Dev_RollbackOnlyHeads: what hangs off a change that was not a head stays linked
                   left  == IF Dev_RollbackOnlyHeads THEN {c \in added : c.par \cap (Ids(attached) \ heads) # {}} ELSE {}
-              IN IF added = {} THEN Unchanged("nothing")
-                 ELSE IF ok THEN Res("accept", tr, HeadsOf(tr), stored \cup added, memRoot)
+              IN IF added = {} THEN [Unchanged("nothing") EXCEPT
+                                       !.un = IF Dev_KeepUnattached THEN un \cup ({fresh[k] : k \in 1..Len(fresh)} \ tr) ELSE {}]
+                 ELSE IF ok THEN [Res("accept", tr, HeadsOf(tr), stored \cup added, memRoot) EXCEPT
+                                    !.un = IF Dev_KeepUnattached THEN {fresh[k] : k \in 1..Len(fresh)} \ tr ELSE {}]
                  ELSE Res("reject", IF Dev_RollbackKeepsAttached THEN tr ELSE attached \cup left, heads, stored, memRoot)
+
+CodeDeliver(batch) == CodeDeliverU(batch, unatt)
 
 \* the property's verdict for the same batch: reject iff some raw change that is looked at is not
 \* authentic, or some change that would be attached is not authorised
@@ -318,6 +333,7 @@ Cand(id, au, cite, pk, m, link) ==
          [] m = "bytes"     -> Chg(id, "ch", au, au, cite, par, snap, FALSE, FALSE)  \* bytes altered, id stale
          [] m = "bytesReid" -> Chg(id, "ch", au, au, cite, par, snap, TRUE, FALSE)   \* bytes altered, id recomputed
          [] m = "id"        -> Chg(id, "ch", au, au, cite, par, snap, FALSE, TRUE)   \* id altered only
+         [] m = "idAlias"   -> [Chg(id, "ch", au, au, cite, par, snap, FALSE, TRUE) EXCEPT !.al = TRUE] \* same hash, other spelling
          [] m = "idDup"     -> Chg(memRoot, "ch", au, au, cite, par, snap, FALSE, TRUE) \* id of a change already held
          [] m = "swap"      -> Chg(id, "ch", au, other, cite, par, snap, TRUE, FALSE) \* names another identity
          [] m = "unsigned"  -> Chg(id, "ch", au, au, cite, par, snap, TRUE, FALSE)   \* signature stripped, claims to be derived
@@ -328,7 +344,7 @@ Cand(id, au, cite, pk, m, link) ==
 FCSet == IF B.FCites = "all" THEN 0..N ELSE {Max(HeadCites \cup {0}), N}
 Descs ==
     {d \in [nf : 0..MaxFill, pos : 0..MaxFill, after : {"child", "sibling"},
-            fa : FAuthors, fc : FCSet,
+            fa : FAuthors, fc : FCSet, pre : B.Pres,
             au : Authors, cite : 0..(N + 1), pk : PKinds, m : Muts] :
         /\ d.pos <= d.nf
         /\ (d.pos = d.nf => d.after = "child")
@@ -337,13 +353,19 @@ Descs ==
         /\ (d.pk = "redundant" => memRoot \notin heads)
         \* the twin copies everything from the change unmarshalled just before it: the previous
         \* member of the batch, or (first position) the last change delivered to the tree
+        \* pre: the genuine candidate was delivered alone in an earlier call, before its parent (the
+        \* filler in front of it) existed locally; now the parent arrives together with the candidate
+        /\ (d.pre => d.pos >= 1 /\ d.pk = "heads" /\ d.m \in {"none", "bytes"})
         /\ (d.m = "twin" => /\ d.pk = "heads" /\ d.au = "W" /\ d.cite = 0
                             /\ (d.pos = 0 => LastUnmarshalled # 0))
         /\ (B.Shape = "hist" =>
               \/ (d.nf = 0 /\ d.m = "none")
               \/ (d.nf = 0 /\ d.m = "twin")
-              \/ (d.nf = 1 /\ d.pos = 1 /\ d.m = "none" /\ d.fa = "S" /\ d.au = "S")
-              \/ (d.nf = 1 /\ d.pos = 1 /\ d.m = "twin" /\ d.fc = N))}
+              \/ (d.nf = 0 /\ d.m = "idAlias")
+              \/ (d.nf = 1 /\ d.pos = 1 /\ d.m = "bytes" /\ d.pre /\ d.fa = "W" /\ d.au = "W" /\ d.cite = N /\ d.fc = N)
+              \/ (d.nf = 1 /\ d.pos = 1 /\ d.m = "none" /\ d.fa = "S" /\ d.au = "S" /\ ~d.pre)
+              \/ (d.nf = 1 /\ d.pos = 1 /\ d.m = "twin" /\ d.fc = N /\ ~d.pre))
+        /\ (B.Shape = "hist" /\ d.nf = 0 => ~d.pre)}
 
 RECURSIVE BuildBatch(_, _, _, _)
 \* k = position being built (1-based), acc = sequence so far, base = highest id in use
@@ -382,7 +404,7 @@ InitTree(kind) ==
 Init ==
     /\ focus \in DOMAIN Bounds
     /\ filt \in Bounds[focus].Filters
-    /\ acl = <<>> /\ hist = <<>>
+    /\ acl = <<>> /\ hist = <<>> /\ unatt = {}
     /\ \E kind \in Bounds[focus].Kinds : InitTree(kind)
     /\ phase = "build" /\ verdict = "none" /\ agree = TRUE /\ reopenOk = TRUE
 
@@ -393,9 +415,10 @@ AclAppend(e) ==
     /\ EvEnabled(e, Status)
     /\ acl' = Append(acl, e)
     /\ hist' = HistAfter(hist, e, N + 1)
-    /\ UNCHANGED <<focus, filt, attached, heads, stored, memRoot, phase, verdict, agree, reopenOk>>
+    /\ UNCHANGED <<focus, filt, unatt, attached, heads, stored, memRoot, phase, verdict, agree, reopenOk>>
 
 Apply(r) == /\ attached' = r.attached /\ heads' = r.heads /\ stored' = r.stored /\ memRoot' = r.memRoot
+            /\ unatt' = r.un
 
 \* one valid-looking single change (signed by S or W, any known cited record) delivered while the
 \* context is built; only accepted deliveries extend the context (rejected ones are no-ops and are
@@ -413,13 +436,17 @@ AddParent(au, cite) ==
 
 \* the context is complete: next comes the candidate batch
 Ready == /\ phase = "build" /\ phase' = "cand"
-         /\ UNCHANGED <<focus, filt, acl, hist, attached, heads, stored, memRoot, verdict, agree, reopenOk>>
+         /\ UNCHANGED <<focus, filt, unatt, acl, hist, attached, heads, stored, memRoot, verdict, agree, reopenOk>>
 
 \* AddRawChanges(batch) for a batch containing the (possibly mutated) candidate
 Deliver(d) ==
     /\ phase = "cand"
     /\ LET b == BatchOf(d)
-           r == CodeDeliver(b)
+           \* the earlier call (d.pre): Tree.Add puts the genuine candidate into unAttached - its parent
+           \* is not there - reports nothing added, and clears unAttached when it returns
+           g  == [b[d.pos + 1] EXCEPT !.cidOk = TRUE, !.sigOk = TRUE]
+           u0 == IF d.pre /\ Dev_KeepUnattached THEN unatt \cup {g} ELSE unatt
+           r == CodeDeliverU(b, u0)
        IN /\ Apply(r)
           /\ verdict' = r.verdict
           /\ agree' = (agree /\ PropDeliver(b) = r.verdict)
@@ -431,7 +458,7 @@ Reopen ==
     /\ phase = "final"
     /\ LET tr == FromStorage(1) IN
          /\ reopenOk' = (reopenOk /\ \A c \in tr : CodeValid(c, tr, 1))
-         /\ attached' = tr /\ heads' = HeadsOf(tr) /\ memRoot' = 1
+         /\ attached' = tr /\ heads' = HeadsOf(tr) /\ memRoot' = 1 /\ unatt' = {}
     /\ UNCHANGED <<focus, filt, acl, hist, stored, phase, verdict, agree>>
 
 AclAny == \E e \in Events : AclAppend(e)
@@ -461,6 +488,7 @@ AttachedOnlyIfAuthorised ==
 
 \* persisted changes have their parents persisted; memory never holds what storage does not
 StoredClosed ==
+    /\ unatt = {}
     /\ \A c \in stored : c.par \subseteq Ids(stored)
     /\ attached \subseteq stored
     /\ heads = HeadsOf(attached)
